@@ -155,6 +155,9 @@ class MCNP_Problem:
             raise TypeError("materials must be of type list and Materials")
         if isinstance(mats, list):
             mats = Materials(mats)
+        mats.link_to_problem(self)
+        for mat in mats:
+            mat.link_to_problem(self)
         self._materials = mats
 
     @property
